@@ -307,3 +307,70 @@ def c13_obligations(e, sizes, real=True):
                     dom_name="real-uf" if real else "fp-uf", functions=funcs,
                     witness_terms={"x": x, "ef0": ef[0], "eg0": eg[0]}, role="merge-" + opn, replay=replay,
                     extra_bounds={"len_f": n, "len_g": m, "paths": len(paths)})
+
+
+# ---------------------------------------------------------------------------------------------------- C19
+def c19_obligations(e, ks):
+    from interp import ResV
+    funcs = ["<Piecewise<T> as Arbitrary>::arbitrary", "arbitrary::{closure#0}", "arbitrary::{closure#1}", "arbitrary::{closure#2}"]
+    for (k, fails) in ks:
+        label = "arbitrary-logic[k=%d%s]" % (k, "" if fails else ",pieces-ok")
+        try:
+            paths, ends = ctrl.arbitrary_run(e, k, piece_failures=fails)
+        except (Unsupported, PathLimit) as ex:
+            e.not_encoded(label, "Arbitrary returns Err or a well-formed function", ex, funcs)
+            continue
+        cases = []
+        n_ok = 0
+        for p in paths:
+            if p.panic is not None:
+                cases.append((p.cond(), z3.BoolVal(False)))
+                continue
+            r = p.result
+            if not isinstance(r, ResV):
+                cases.append((p.cond(), z3.BoolVal(False)))
+                continue
+            if not r.ok:
+                continue
+            n_ok += 1
+            segs = r.fields[0].fields[0].fields
+            rends = [s_.fields[0].t for s_ in segs]
+            per = [z3.BoolVal(len(segs) >= 1), z3.BoolVal(len(segs) == k)]
+            for i, t in enumerate(rends):
+                per.append(z3.fpIsNormal(t))
+                if i:
+                    per.append(z3.fpLEQ(rends[i - 1], t))
+            cases.append((p.cond(), z3.And(*per)))
+
+        def replay(model, ob, k=k, ends=ends):
+            ev = []
+            for t in ends:
+                v = model_value(model, t)
+                ev.append(float("nan") if (v is not None and v != v) else (0.0 if v is None else float(v)))
+            req = ["arb", str(k), ev + [float(i + 1) for i in range(k)]]
+            path = e.write_replay(ob.name, {"kind": "E2-native-arbitrary", "request": req,
+                                            "statement": "Arbitrary returns Err or >=1 segment with normal, non-decreasing breakpoints"})
+            bad = []
+            import math
+            for prof in ("dev", "release"):
+                o = e.native.run([tuple(req)], prof)[0]
+                if isinstance(o, str):
+                    if o.startswith("PANIC"):
+                        bad.append("%s build: arbitrary panicked on the byte string encoding ends %r" % (prof, ev))
+                    continue
+                got = list(o[0::2])
+                okk = len(got) >= 1 and all((v == v and not math.isinf(v) and abs(v) >= 2.2250738585072014e-308) for v in got) and \
+                    all(got[i] <= got[i + 1] for i in range(len(got) - 1))
+                if not okk:
+                    bad.append("%s build: byte string encoding the ends %r decodes to Ok with breakpoints %r" % (prof, ev, got))
+            if bad:
+                return True, path, "; ".join(bad[:1])
+            return False, path, "model does not reproduce natively"
+
+        e.prove_cases(label,
+                      "MIR of the Arbitrary impl with the dependency's decoders replaced by their contract (Vec<f64>::arbitrary = ANY %d binary64 "
+                      "values incl. NaN/inf/subnormal/zero in any order%s), bit-precise, %d feasible paths (%d return Ok): every Ok result has "
+                      "exactly %d >= 1 segments whose breakpoints are all normal and non-decreasing; no panic path" % (
+                          k, "; T::arbitrary = Ok(any piece) or Err at any position" if fails else "", len(paths), n_ok, k),
+                      [], cases, dom_name="fp", functions=funcs, witness_terms={"end0": ends[0]} if ends else {}, role="arbitrary-wellformed",
+                      replay=replay, extra_bounds={"list_length": k, "paths": len(paths)})
